@@ -29,7 +29,7 @@ type runRes struct {
 	counts    []string
 }
 
-func normTag(p []byte) []byte { return []byte(strings.ReplaceAll(string(p), "7365743a", "73756d3a")) }
+func normTag(p []byte) []byte { return sys.NormTag(p) }
 
 func render(msgs []sys.Msg, r *sys.Result) string {
 	var p []string
